@@ -137,6 +137,11 @@ static std::string oracle(const Case& c) {
             if (nl > 4) { std::string pre = variant(word, 4, ~0u, false, ""); deco.push_back(pre + model::utf8(mark)); deco.push_back(model::nfc(pre + model::utf8(mark))); }   // abbreviated + accent
         }
         for (auto& d : deco) { std::string m = run_tok(d, "class:decorated-with-combining-mark"); if (!m.empty()) return m; }
+        if (lr.noaccent) { // accent-blind languages: whatever is done with foreign non-ASCII characters (DESIGN section 5), a token that goes on with a LETTER the word does not have is never that word
+            std::string pre = nl > 4 ? variant(word, 4, ~0u, false, "") : word; auto wl = model::codepoints(model::strip_marks(word)); uint32_t nextc = wl.size() > 4 ? wl[4] : 0;
+            for (const char* junk : {"\xe2\x80\x8b", "\xe7\x9a\x84", "\xc2\xb7", "\xf0\x9f\x98\x80", "\xe2\x80\x8b\xcc\x81"}) for (const char* wrong : {"x", "q"}) { if (nextc == (uint32_t)wrong[0]) continue;
+                std::string m = run_tok(pre + junk + wrong, "class:foreign-character-then-wrong-letter"); if (!m.empty()) return m; }
+        }
         if (!lr.noaccent) {
             std::vector<std::string> foreign = {word + "\xe7\x9a\x84", "\xe2\x80\x8b" + word, word + "\xc2\xb7", "\xc3\x86" + word, (nl > 4 ? variant(word, 4, ~0u, false, "") : word) + "\xc3\xb8"};
             for (auto& d : foreign) { std::string m = run_tok(d, "class:decorated-with-foreign-character"); if (!m.empty()) return m; }
